@@ -23,11 +23,12 @@ class CmdScenario(wfscn.ProgScenario):
        [['pause','resume']] (default: any sequence up to max_cmds)."""
 
     def __init__(self, name, prog, menu=(), max_cmds=1, sequences=None,
-                 **kw):
+                 only_tasks=None, **kw):
         super(CmdScenario, self).__init__(name, prog, **kw)
         self.menu = list(menu)
         self.max_cmds = max_cmds
         self.sequences = sequences
+        self.only_tasks = only_tasks
 
     def spec(self):
         return ('mc.cmdscn', type(self).__name__, self.kwargs())
@@ -35,7 +36,7 @@ class CmdScenario(wfscn.ProgScenario):
     def kwargs(self):
         d = super(CmdScenario, self).kwargs()
         d.update(menu=self.menu, max_cmds=self.max_cmds,
-                 sequences=self.sequences)
+                 sequences=self.sequences, only_tasks=self.only_tasks)
         return d
 
     def describe(self):
@@ -57,6 +58,20 @@ class CmdScenario(wfscn.ProgScenario):
 
     def _note_history(self, kind):
         h = env.W.extra.setdefault('hist', [])
+        if kind in ('stop:CANCELLED', 'stop_sub:CANCELLED'):
+            n = q("select count(*) from task_executions_v2 "
+                  "where state='IDLE' and type='WORKFLOW'")[0][0]
+            tag = 'cancel-while-a-created-subworkflow-task-was-not-started-yet'
+            if n and tag not in h:
+                h.append(tag)
+        if kind in ('rerun', 'rerun_noreset', 'skip'):
+            pend = any(
+                a.kind == 'chain' and a.chain_ops is not None and any(
+                    '_check' in op for op in a.chain_ops[a.chain_pos:])
+                for a in env.W.acts if not a.done)
+            tag = 'rerun-before-the-pending-completion-check-of-the-failure'
+            if pend and tag not in h:
+                h.append(tag)
         if kind in ('resume', 'resume_sub'):
             n = q("select count(*) from task_executions_v2 "
                   "where state='IDLE'")[0][0]
@@ -110,6 +125,20 @@ class CmdScenario(wfscn.ProgScenario):
                 out.append(self._mk('resume', 'root', self._engine_cmd(
                     'resume_workflow', wf_ex_id=rid, env=None),
                     'resume root'))
+            if self._allowed('resume_any') and rstate in FINAL:
+                out.append(self._mk('resume_any', 'root', self._engine_cmd(
+                    'resume_workflow', wf_ex_id=rid, env=None),
+                    'resume a finished root'))
+            if self._allowed('pause_any') and rstate in FINAL:
+                out.append(self._mk('pause_any', 'root', self._engine_cmd(
+                    'pause_workflow', wf_ex_id=rid),
+                    'pause a finished root'))
+            for st in ('SUCCESS', 'ERROR', 'CANCELLED'):
+                k = 'stop_any:' + st
+                if self._allowed(k) and rstate in FINAL and rstate != st:
+                    out.append(self._mk(k, 'root', self._engine_cmd(
+                        'stop_workflow', wf_ex_id=rid, state=st,
+                        message='stopped-again'), 'stop a finished root'))
             for st in ('SUCCESS', 'ERROR', 'CANCELLED'):
                 k = 'stop:' + st
                 if self._allowed(k) and rstate not in FINAL:
@@ -137,6 +166,9 @@ class CmdScenario(wfscn.ProgScenario):
             ts = q("select id, name, state from task_executions_v2 "
                    "where state='ERROR' order by id")
             for tid, tname, tstate in ts:
+                if self.only_tasks is not None and \
+                        tname not in self.only_tasks:
+                    continue
                 if self._allowed('rerun'):
                     out.append(self._mk('rerun', tname, self._engine_cmd(
                         'rerun_workflow', task_ex_id=tid, reset=True,
